@@ -13,6 +13,10 @@ DEFAULT_CFG = {"ds": "<", "de": ">", "tl": "tl", "rm": "rm", "off": "+00:00", "n
 GEN_CFG_HEAD = "INIT Init\nNEXT Next\nCHECK_DEADLOCK FALSE\n"
 
 
+class StopSelftest(Exception):
+    pass
+
+
 class Violation(Exception):
     def __init__(self, prop, replay):
         self.prop = prop
@@ -35,6 +39,9 @@ class Ctx:
         self.known = load_known_findings()
         self.jobno = 0
         self.kf_printed = set()
+        self.limit = None
+        self.corrupt = None
+        self.corrupt_result = None
 
     @property
     def quick(self):
@@ -80,7 +87,9 @@ class Ctx:
                         n += 1
                 jobrec["generators"].append({"rust": g["rust"][0], "behaviours": n})
                 continue
-            consts = dict(base_consts(cfg, ops or [], name))
+            gcfg = dict(cfg, **g["cfg"]) if g.get("cfg") else cfg
+            gdefaults = dict(defaults, cfg=cfg_json(gcfg)) if g.get("cfg") else defaults
+            consts = dict(base_consts(gcfg, ops or [], name))
             consts.update(g.get("consts", {}))
             body = GEN_CFG_HEAD + "INVARIANT %s\n" % g.get("emit", "EmitAll")
             for xi in g.get("extra_inv", []) if isinstance(g.get("extra_inv"), list) else ([g["extra_inv"]] if g.get("extra_inv") else []):
@@ -88,13 +97,20 @@ class Ctx:
             if g.get("constraint"):
                 body += "CONSTRAINT %s\n" % g["constraint"]
             gname = "G%d_%s" % (gi, g["base"])
-            n, states, secs = tlc_generate(d, gname, g["base"], consts, body, beh, defaults=defaults,
+            n, states, secs = tlc_generate(d, gname, g["base"], consts, body, beh, defaults=gdefaults,
                                            simulate=g.get("simulate"), seed=self.seed, append=True,
                                            timeout=g.get("timeout", 1200), workers=g.get("workers"))
             self.cov["generator_states"] += states
             jobrec["generators"].append({"spec": g["base"], "behaviours": n, "tlc_states": states,
                                          "secs": round(secs, 1), "mode": "simulate" if g.get("simulate") else "exhaustive",
                                          "bounds": {k: v for k, v in g.get("consts", {}).items() if isinstance(v, (int, str))}})
+        if self.limit:
+            # selftest mode: a spread sample of the generated behaviours
+            lines = open(beh).read().splitlines()
+            if len(lines) > self.limit:
+                step = len(lines) / float(self.limit)
+                lines = [lines[int(i * step)] for i in range(self.limit)]
+                open(beh, "w").write("\n".join(lines) + "\n")
         nbeh = count_lines(beh)
         if nbeh == 0:
             raise ToolError("job %s generated no behaviours" % name)
@@ -104,6 +120,9 @@ class Ctx:
         jobrec["harness_secs"] = round(hsecs, 1)
         # non-triviality and samples are measured on the recorded trace
         self._scan_trace(trace, nontrivial, sample_filter)
+        if self.corrupt:
+            self.corrupt_result = self.corrupt(self, d, trace, invariants)
+            raise StopSelftest()
         skip = []
         while True:
             res = tlc_validate(d, trace, invariants, skip=skip, name=trace_module, timeout=validate_timeout)
